@@ -546,8 +546,139 @@ pub fn units() -> Vec<Unit> {
             Fn("Session::prepare_buffer"),
         ],
     },
+    // C05 / C07: `Session::handle_rx` — acceptance test and order of the state updates.  Abstract: parsing,
+    // MIC validity and decryption (the buffer is what `EncryptedDataPayload::parse` / `decrypt_in_place` yield on
+    // it), the handling of the MAC commands (`Session::handle_downlink_macs`: a method of `MacOps`), the region
+    // (carrier of `MacOps`), `next_lower_datarate`.  Translated for real: `Session::handle_rx`,
+    // `Session::rx2_complete`, `next_fcnt_down`, the `Uplink` helpers.
+    Unit {
+        module: "Gen.SessionRx",
+        file: "lorawan-device/src/mac/session.rs",
+        more_files: vec![
+            "lorawan-device/src/mac/mod.rs",
+            "lorawan-device/src/mac/uplink/mod.rs",
+            "lorawan-device/src/lib.rs",
+            "lorawan-device/src/region/constants.rs",
+            "lorawan-encoding/src/parser.rs",
+            "lorawan-encoding/src/types.rs",
+            "lorawan-encoding/src/packet_length.rs",
+        ],
+        imports: vec!["LoraVerif.Gen.Region"],
+        items: vec![
+            ExternEnum("DR"),
+            Const("ADR_ACK_LIMIT"),
+            Const("ADR_ACK_DELAY"),
+            Const("MAX_FCNT_GAP"),
+            Const("MHDR_LEN"),
+            Const("MIC_LEN"),
+            Const("FOPTS_MAX_LEN"),
+            Alias("FcntDown", "u32"),
+            EnumData("Response"),
+            Struct("Configuration"),
+            Struct("Downlink"),
+            EnumData("FrmPayload"),
+            Raw(SESSION_RX_RAW1),
+            ExternStructRaw("AES128", &[]),
+            ExternStructRaw("NwkSKey", &[]),
+            ExternStructRaw("AppSKey", &[]),
+            ExternStructRaw("DevAddr", &[]),
+            ExternStructRaw("DefaultCrypto", &[]),
+            ExternStructRaw("Fhdr", &[]),
+            ExternStructRaw("EncryptedDataPayload", &[]),
+            ExternStructRaw("DecryptedDataPayload", &[]),
+            ExternStructRaw("RxBytes", &[]),
+            ExternStructRaw("RadioBuffer", &[]),
+            ExternStructRaw("MacCmdBytes", &[]),
+            ExternStructRaw("RegionCfg", &[]),
+            Alias("region::Configuration", "RegionCfg"),
+            ExternFn("NwkSKey::inner", "NwkSKey.inner", &[("self", "NwkSKey")], "AES128"),
+            ExternFn("AppSKey::inner", "AppSKey.inner", &[("self", "AppSKey")], "AES128"),
+            ExternFn("DefaultCrypto::new", "DefaultCrypto.new", &[("key", "AES128")], "DefaultCrypto"),
+            ExternFn("RadioBuffer::as_mut_for_read", "RadioBuffer.as_mut_for_read", &[("self", "RadioBuffer")], "RxBytes"),
+            ExternFn("EncryptedDataPayload::parse", "RxBytes.parse", &[("bytes", "RxBytes")], "Result<EncryptedDataPayload, Error>"),
+            ExternFn("EncryptedDataPayload::as_bytes", "EncryptedDataPayload.as_bytes", &[("self", "EncryptedDataPayload")], "[u8]"),
+            ExternFn("EncryptedDataPayload::is_confirmed", "EncryptedDataPayload.is_confirmed", &[("self", "EncryptedDataPayload")], "bool"),
+            ExternFn("EncryptedDataPayload::fhdr", "EncryptedDataPayload.fhdr", &[("self", "EncryptedDataPayload")], "Fhdr"),
+            ExternFn("EncryptedDataPayload::validate_mic", "EncryptedDataPayload.validate_mic", &[("self", "EncryptedDataPayload"), ("crypto", "DefaultCrypto"), ("fcnt", "u32")], "bool"),
+            ExternFn("Fhdr::fcnt", "Fhdr.fcnt", &[("self", "Fhdr")], "u16"),
+            ExternFn("Fhdr::f_opts", "Fhdr.f_opts", &[("self", "Fhdr")], "[u8]"),
+            ExternFn("DecryptedDataPayload::decrypt_in_place", "RxBytes.decrypt_in_place", &[("bytes", "RxBytes"), ("nwk", "Option<DefaultCrypto>"), ("app", "Option<DefaultCrypto>"), ("fcnt", "u32")], "Result<DecryptedDataPayload, Error>"),
+            ExternFn("DecryptedDataPayload::fhdr", "DecryptedDataPayload.fhdr", &[("self", "DecryptedDataPayload")], "Fhdr"),
+            ExternFn("DecryptedDataPayload::f_port", "DecryptedDataPayload.f_port", &[("self", "DecryptedDataPayload")], "Option<u8>"),
+            ExternFn("DecryptedDataPayload::frm_payload", "DecryptedDataPayload.frm_payload", &[("self", "DecryptedDataPayload")], "FrmPayload"),
+            ExternFn("parse_downlink_mac_commands", "MacCmdBytes.mk", &[("data", "[u8]")], "MacCmdBytes"),
+            ExternFn("Vec::from_slice", "Downlink.data_from_slice", &[("s", "[u8]")], "Result<Vec<u8, 256>, ()>"),
+            Struct("Uplink"),
+            Raw("/-- the iterator pipeline of `clear_mac_commands(true)` (not reached from `handle_rx`) -/\nopaque retained_pipeline : List Int → List Int → List Int\n"),
+            AbstractStmt("parse_uplink_mac_commands(", "retained_pipeline", &["self.pending", "data"], &["data"]),
+            Struct("Session"),
+            Raw(SESSION_RX_RAW2),
+            ExternFn("next_lower_datarate", "MacOps.next_lower", &[("region", "region::Configuration"), ("current", "DR")], "Option<DR>"),
+            ExternFnX("Session::handle_downlink_macs", "MacOps.handle_downlink_macs", &[("self", "Session"), ("configuration", "Configuration"), ("region", "region::Configuration"), ("cmds", "MacCmdBytes"), ("snr", "i8"), ("answers_full", "bool")], "", &["self", "configuration", "region", "answers_full"], true),
+            Fn("Session::handle_rx"),
+        ],
+    },
     ]
 }
+
+/// Lean text of the abstract part of `Gen.SessionRx`
+const SESSION_RX_RAW1: &str = r#"/-! Keys and addresses are opaque identities; a crypto context is the key it is bound to.  Parsing,
+MIC validity and decryption are abstract: the received bytes are what the parser yields on them. -/
+structure AES128 where
+  id : Int
+  deriving DecidableEq, Repr
+structure NwkSKey where
+  inner : AES128
+  deriving DecidableEq, Repr
+structure AppSKey where
+  inner : AES128
+  deriving DecidableEq, Repr
+structure DevAddr where
+  id : Int
+  deriving DecidableEq, Repr
+structure DefaultCrypto where
+  new ::
+  key : AES128
+  deriving DecidableEq, Repr
+structure Fhdr where
+  fcnt : Int
+  f_opts : List Int
+  deriving DecidableEq, Repr
+/-- a byte string `EncryptedDataPayload::parse` accepted: what `handle_rx` reads of it, and for which
+(crypto context, 32-bit counter) its MIC verifies -/
+structure EncryptedDataPayload where
+  as_bytes : List Int
+  is_confirmed : Bool
+  fhdr : Fhdr
+  validate_mic : DefaultCrypto → Int → Bool
+/-- the decrypted frame -/
+structure DecryptedDataPayload where
+  fhdr : Fhdr
+  f_port : Option Int
+  frm_payload : FrmPayload
+/-- the received bytes: the result of `EncryptedDataPayload::parse` and of
+`DecryptedDataPayload::decrypt_in_place(bytes, nwk, app, fcnt)` on them (`none` = `Err`) -/
+structure RxBytes where
+  parse : Option EncryptedDataPayload
+  decrypt_in_place : Option DefaultCrypto → Option DefaultCrypto → Int → Option DecryptedDataPayload
+structure RadioBuffer where
+  as_mut_for_read : RxBytes
+/-- `parse_downlink_mac_commands(bytes)`: the command iterator is the byte string it runs over -/
+structure MacCmdBytes where
+  bytes : List Int
+  deriving DecidableEq, Repr
+/-- `heapless::Vec::<u8, 256>::from_slice` (the capacity is that of `Downlink::data`; the translator
+checks it against the field when the value is stored) -/
+def Downlink.data_from_slice (s : List Int) : Option (List Int) := if (s.length : Int) ≤ 256 then some s else none
+"#;
+const SESSION_RX_RAW2: &str = r#"/-- what `handle_rx` calls on the region and on itself for the MAC commands (abstract here):
+`next_lower_datarate(region, dr)` and `Session::handle_downlink_macs(&mut self, configuration, region,
+cmds, snr, answers_full)` (`none` = panic) -/
+class MacOps (ρ : Type) where
+  next_lower : ρ → DR → Option DR
+  handle_downlink_macs : Session → Configuration → ρ → MacCmdBytes → Int → Bool → Option (Session × Configuration × ρ × Bool)
+variable {RegionCfg : Type} [MacOps RegionCfg]
+"#;
 
 /// Lean text of the abstract part of `Gen.SessionTx`
 const SESSION_TX_RAW1: &str = r#"/-! Keys and addresses are opaque identities; a crypto context is the key it is bound to. -/
